@@ -30,7 +30,7 @@ def main():
     only = os.environ.get('C02_ONLY')
     if only:
         jobs = [j for j in jobs if only in j[0]]
-    chk.bounds.append('E3 structural slice: SparseMatrixCSR<double,u64> of 1..3 x 1..3 with <= %d entries, every row-length profile (incl. entry-free matrices and empty rows) concrete, ALL column indices symbolic (any strictly sorted in-range rows), values raw symbolic 64-bit patterns: transpose (both forms), clone(Deep), clone(Shallow) outliving the original; permute with symbolic row and column permutation arrays (any bijections) for rows*cols <= %d and <= %d entries' % ((5, 6, 3) if quick else (6, 9, 4)))
+    chk.bounds.append('E3 structural slice: SparseMatrixCSR<double,u64> of 1..3 x 1..3 with <= %d entries, every row-length profile (incl. entry-free matrices and empty rows) concrete, ALL column indices symbolic (any strictly sorted in-range rows), values raw symbolic 64-bit patterns: transpose (both forms), clone(Deep), clone(Shallow) outliving the original, round trip CSR -> CSCR -> CSR and layout rebuilt from Graph(as_is, matrix) (the two conversions without the entry-free profiles: rejected by explicit precondition); permute with symbolic row and column permutation arrays (any bijections) for rows*cols <= %d and <= %d entries' % ((5, 6, 3) if quick else (6, 9, 4)))
     chk.assume('E3 structural slice: values are 64-bit patterns that the operations only move (never interpreted); row lengths are concrete per profile')
     # vacuity guard: a deliberately wrong oracle (transpose claimed to be the identity) must be refuted with a concrete model
     wj = [j for j in c02s.jobs(True) if '2x2 row lengths [1, 1]' in j[0] and j[2].get('op') == 0]
